@@ -484,8 +484,10 @@ def step(st, ev, seed):
             if m0.get("fatal_on_ticket_conn") and mech["cache"] and \
                     st.now - m0["issued"] <= MAXAGE and \
                     not m0["evicted"] and m0["server"] == rec["srv"] and \
-                    rec["offer"] in ("held", "held-copy",
-                                     "held-refreshed-clock"):
+                    rec["offer"] not in (
+                        "unknown-id", "foreign", "held-other-hash",
+                        "held-same-hash", "held-other-sni", "held-no-sni",
+                        "held-renamed-sni", "held-noems", "held-noetm"):
                 # the only thing against this resumption is a fatal error on
                 # a connection that had been resumed *by ticket*
                 tag = "[id-after-fatal-on-ticket-conn] "
